@@ -1,6 +1,7 @@
 import Exetera.Props.C06
 import Exetera.Lemmas.GenKernelsCategorical
 import Exetera.Lemmas.GenKernelsLeaky
+import Exetera.Lemmas.GenKernelsFixedString
 /-!
   C06 over the TRANSLATED import transforms (`Gen/Kernels.lean`, regenerated from operations.py by tools/translate_njit.py on every
   run).
@@ -62,6 +63,30 @@ example : leaky_categorical_transform.run [0, 0, 0] [0, 0, 0, 0] [0, 0, 0, 0, 0,
     = .ok ([-1, -1, 7], [0, 2, 2, 2], [97, 98, 0, 0, 0, 0, 0]) := by rfl
 example : NonDecreasingBelow C06.demoChunk.rows C06.demoChunk.inds :=
   encodes_nonDecreasingBelow _ _ C06.demo_encodes
+
+/-! ## fixed_string_transform
+
+  The model keeps the bytes of the `S<n>` buffer as naturals; the kernel writes `np.int8(b)` into the int8 view of that buffer. The
+  translation renders the cast (`PyRt.pyInt8`), so the translated kernel's memory is the model's read as signed bytes
+  (`GenK.asInt8`; the identity below 128). -/
+
+theorem gen_fixed_string_transform_ok (c : Chunk) (strlen : Nat) (cinds : List (List Int)) (coffs : List Int)
+    (hst : Staged c cinds coffs) (mem : Bytes) (h : fixedStringTransform c strlen = .ok mem) :
+    fixed_string_transform.run cinds (ints c.vals) coffs (c.col : Int) (c.rows : Int) (strlen : Int)
+      (List.replicate (c.rows * strlen) 0) = .ok (mem.map asInt8) :=
+  fixed_string_transform_ok c strlen cinds coffs hst mem h
+
+/-- `fixed_string_transform` as translated, on a chunk the reader filled: it returns normally and each row of the buffer is the
+    first `n` bytes of its cell, zero padded (as signed bytes) -/
+theorem gen_fixed_truncates_to_n (c : Chunk) (n : Nat) (cells : List Bytes) (h : Encodes c cells) (cinds : List (List Int))
+    (coffs : List Int) (hst : Staged c cinds coffs) :
+    fixed_string_transform.run cinds (ints c.vals) coffs (c.col : Int) (c.rows : Int) (n : Int) (List.replicate (c.rows * n) 0)
+      = .ok (((cells.map (fixedCell n)).flatten).map asInt8) :=
+  fixed_string_transform_ok c n cinds coffs hst _ (C06.fixed_truncates_to_n c n cells h)
+
+example : fixed_string_transform.run [[0, 0, 0, 0, 0], [0, 2, 2, 5, 9]] [88, 88, 97, 98, 97, 98, 99, 88, 200] [0, 2, 9] 1 3 2
+    [0, 0, 0, 0, 0, 0] = .ok [97, 98, 0, 0, 97, 98] := by rfl
+example : asInt8 200 = -56 ∧ asInt8 97 = 97 := by decide
 
 example : Staged C06.demoChunk [[0, 0, 0, 0, 0], [0, 2, 2, 5, 9]] [0, 2, 9] := ⟨rfl, rfl⟩
 example : categorical_transform.run [0, 0, 0] 1 [[0, 0, 0, 0, 0], [0, 2, 2, 5, 9]] [88, 88, 97, 98, 97, 98, 99, 88, 88] [0, 2, 9]
